@@ -19,11 +19,15 @@ func TestMain(m *testing.M) {
 	vkit.Main(m)
 }
 
+var collIn = vkit.NewCollector("C14", "TestAckedInProcess", "1-3 cycles of 1-10 Append/SaveOffset calls on one SQLite file opened through the fault driver, each call optionally with a fault placed inside it at the driver level (statement fails before running; statement runs and its reply is lost; the caller's context is cancelled right after the statement has run; a transaction commit fails; context already cancelled), a clean Close and reopen after every cycle. Oracle: the reopened log is the attempted appends in order with every acknowledged one present at its acknowledged offset (an append that reported an error may or may not be there), offsets increase and are never reused, LoadOffset returns the last acknowledged (or possibly written) value. Non-trivial = a fault inside an operation after an earlier append, with at least two cycles.")
+
+func TestAckedInProcess(t *testing.T) { vkit.Check(t, collIn, GenInProc, RunInProc) }
+
 func TestChildWorker(t *testing.T) { t.Skip("only runs as a child process") }
 
 func TestKillReopen(t *testing.T) { vkit.Check(t, coll, Gen, Run) }
 
 func TestReplay(t *testing.T) {
 	r := vkit.NeedReplay(t)
-	vkit.ReplayCase(t, r, coll, Run)
+	_ = vkit.ReplayCase(t, r, coll, Run) || vkit.ReplayCase(t, r, collIn, RunInProc)
 }
